@@ -170,21 +170,28 @@ Proof. exact dbl_stmt_refuted_15. Qed.
 (* subnormal values and -0.0: both variants of the two literal rules of
    _GD_TokToNum (tree independent), and the reader of the current source: the
    literal is read back iff the rule is present (Gen/Formats.v) *)
-Theorem subnormal_literal_reader_variants :
-  stableb_gen false false 17 d_sub = false /\ stableb_gen false true 17 d_sub = false /\
-  stableb_gen true false 17 d_sub = true /\ stableb_gen true true 17 d_sub = true.
+Theorem subnormal_literal_reader_variants : forall zf pu,
+  stableb_gen 0 zf pu 17 d_sub = false /\ stableb_gen 1 zf pu 17 d_sub = true /\ stableb_gen 2 zf pu 17 d_sub = true.
 Proof. exact subnormal_variants. Qed.
 
-Theorem negzero_literal_reader_variants :
-  stableb_gen false false 17 d_negzero = false /\ stableb_gen true false 17 d_negzero = false /\
-  stableb_gen false true 17 d_negzero = true /\ stableb_gen true true 17 d_negzero = true.
+Theorem negzero_literal_reader_variants : forall pu,
+  stableb_gen 0 false pu 17 d_negzero = false /\ stableb_gen 2 false pu 17 d_negzero = false /\
+  stableb_gen 0 true pu 17 d_negzero = true /\ stableb_gen 2 true pu 17 d_negzero = true.
 Proof. exact negzero_variants. Qed.
 
-Theorem subnormal_literal_current : dlit_okb (ctx 10 17) d_sub = tok_accepts_underflow.
+(* the reader of the current source reads both literals back (the translator
+   records the rules _GD_TokToNum has; on the pinned source both were false) *)
+Theorem subnormal_literal_current : dlit_okb (ctx 10 17) d_sub = negb (tok_erange_rule =? 0).
 Proof. exact subnormal_current. Qed.
 
 Theorem negzero_literal_current : dlit_okb (ctx 10 17) d_negzero = tok_zero_via_strtod.
 Proof. exact negzero_current. Qed.
+
+Theorem subnormal_literal_read_back : dlit_ok (ctx 10 17) d_sub.
+Proof. apply dlit_okb_ok. vm_compute. reflexivity. Qed.
+
+Theorem negzero_literal_read_back : dlit_ok (ctx 10 17) d_negzero.
+Proof. apply dlit_okb_ok. vm_compute. reflexivity. Qed.
 
 Theorem const_float64_15_digits_lost :
   parse_line (rctx_of (ctx 10 15)) (print_entry (ctx 10 15) (EConst (bytes_of_string "c") T_F64 (VD d_03)))
@@ -223,8 +230,8 @@ Qed.
    strtoull, strtod; both literal-rule variants) consumes a '<', so a token
    name<...> is never read as a number (name without '<' and ';', which
    _GD_ValidateField rejects from Standards Version 5 on) *)
-Theorem scalar_code_not_number : forall uf zf base0 wr wi (x t : bstring),
-  ~ In 60 x -> ~ In 59 x -> tok_to_num_gen uf zf base0 wr wi (x ++ 60 :: t) = NotNum.
+Theorem scalar_code_not_number : forall uf zf pu base0 wr wi (x t : bstring),
+  ~ In 60 x -> ~ In 59 x -> tok_to_num_gen uf zf pu base0 wr wi (x ++ 60 :: t) = NotNum.
 Proof. exact tok_lt_not_number. Qed.
 
 (* the word _GD_WriteConst writes for a scalar field code with index i (-1 =
